@@ -1,8 +1,8 @@
 SPECIFICATION Spec
 CONSTANTS
-  NSET = {1, 2, 3, 4, 8, 16, 32, 64}
+  NSET = {1, 2, 3, 4, 8, 9, 16, 27, 32, 64}
   MAXD = 4
-  B = 2
+  BS = {2, 3, 4}
 INVARIANT AllB
 INVARIANT RoundTrip
 CHECK_DEADLOCK FALSE
